@@ -390,6 +390,10 @@ def generate(rnd, n_books=1, n_sheets=2, n_const=14, n_formula=12, rows=6, cols=
                     args.append(('ref', pick_range()))
                 else:
                     args.append(scalar(depth - 1) if rnd.random() < 0.5 else ('lit', gen_value(rnd, 'nnnnb')))
+            if f == 'SUM':
+                # (AND/OR return a numpy logical, which SUM counts or skips depending on the dtype the other arguments
+                #  happen to have - an accident of np.concatenate the model does not reproduce; MAX/MIN/COUNT skip it always)
+                args = [('lit', gen_value(rnd, 'nn')) if a_[0] == 'call' and a_[1] in ('AND', 'OR') else a_ for a_ in args]
             return ('call', f, args)
         if f == 'IF':
             cond = ('bin', rnd.choice(['=', '<>', '<', '>', '<=', '>=']), scalar(depth - 1), scalar(depth - 1)) \
